@@ -203,6 +203,12 @@ func (a *it4) batchSource(e ast.Expr) (types.Object, bool) {
 
 func (a *it4) classifyPush(p *itEvent) ordInfo {
 	arg := ast.Unparen(p.arg)
+	// pushed from inside an inlined callee: a parameter stands for the argument of the call
+	if id, ok := arg.(*ast.Ident); ok && p.bind != nil {
+		if b, ok := p.bind[a.info.ObjectOf(id)]; ok {
+			arg = ast.Unparen(b)
+		}
+	}
 	// direct batch
 	if src, ok := a.batchSource(arg); ok {
 		return ordInfo{kind: ordPass, src: src, expr: arg}
